@@ -111,6 +111,24 @@ def selfrule_case(draw):
 VALUE_POOL = ['', 'a', 'b', 'ab', 'ba', '1', '11', '2', '10', 'é', 'é', ' ', 'Z', 'z', '0', '-1', 'NaN', 'x,y']
 
 
+NUMERAL_POOL = ['1', '01', '1.0', '1.10', '1.1', '2', '2.0', '10', '1e1', '0', '0.0', '-1', '-1.0', '007', '7']
+
+
+@st.composite
+def long_relabel_case(draw):
+    """n 66 000 - 90 000 with few values on both sides (a label against a low-cardinality feature in a long batch), recoded with
+    gapped codes: small strides (c -> 2c, 3c, 1000c), offsets, reversal."""
+    case = {'gen': {'fam': draw(st.sampled_from(['independent', 'noisy_copy', 'function'])), 'n': draw(st.integers(66_000, 90_000)),
+                    'kx': draw(st.integers(2, 40)), 'ky': draw(st.integers(2, 12)), 'k': draw(st.integers(0, 2**32 - 1)), 'p': 0.15},
+            'swap': draw(st.booleans())}
+    spec = st.one_of(st.builds(lambda m: {'t': 'stride', 'm': m}, st.sampled_from([2, 3, 3, 7, 1000])), st.just({'t': 'reverse'}),
+                     st.builds(lambda d: {'t': 'offset', 'd': d}, st.sampled_from([1, 5, 1000])), st.just({'t': 'id'}))
+    case['fy'] = draw(spec)
+    case['gx'] = draw(spec)
+    case['c'] = draw(st.booleans())
+    return case
+
+
 @st.composite
 def frame_case(draw):
     ncols = draw(st.integers(2, 4))
@@ -118,12 +136,15 @@ def frame_case(draw):
     cols = []
     for c in range(ncols):
         k = draw(st.integers(1, 6))
-        vals = draw(st.lists(st.sampled_from(VALUE_POOL), min_size=k, max_size=k, unique=True))
+        # now and then a column whose values all read as numbers, several of them spelling the SAME number (version strings, zero-padded ids)
+        pool = NUMERAL_POOL if draw(st.integers(0, 3)) == 0 else VALUE_POOL
+        vals = draw(st.lists(st.sampled_from(pool), min_size=k, max_size=k, unique=True))
         cols.append(draw(st.lists(st.sampled_from(vals), min_size=nrows, max_size=nrows)))
     label_pos = draw(st.integers(0, ncols - 1))
     rename_seed = draw(st.integers(0, 2**32 - 1))
     pairwise = draw(st.booleans())
-    return {'cols': cols, 'label_pos': label_pos, 'rename_seed': rename_seed, 'pairwise': pairwise}
+    # the frame's text columns are stored either with pandas' string dtype or as plain Python objects (dtype=object)
+    return {'cols': cols, 'label_pos': label_pos, 'rename_seed': rename_seed, 'pairwise': pairwise, 'object_dtype': draw(st.booleans())}
 
 
 # ---- oracles -------------------------------------------------------------------------------------
@@ -207,6 +228,9 @@ def oracle_pipeline(case, rec):
     df = pd.DataFrame({n: c for n, c in zip(names, cols)})
     df2 = pd.DataFrame({n: [(_rename_map(set(c), case['rename_seed'] + i))[v] for v in c]
                         for i, (n, c) in enumerate(zip(names, cols))})
+    if case.get('object_dtype'):
+        df, df2 = df.astype(object), df2.astype(object)
+        rec.cls('object-dtype-columns')
     args = stubs.make_args(heuristic='MI-numba-randomized',
                            target_ranking_only='False' if case['pairwise'] else 'True')
 
@@ -271,7 +295,7 @@ def oracle_pipeline_wide(case, rec):
                             f'(each seen twice): {s1[key]!r} -> {s2.get(key)!r}', kind='C02/pipeline-coding')
 
 
-ORACLES = {'C02/pipeline-wide': oracle_pipeline_wide, 'C02/exception': oracle_selfrule, 'C02/many-strata': oracle_relabel, 'C02/relabel-invariance': oracle_relabel, 'C02/self-pair-rule': oracle_selfrule,
+ORACLES = {'C02/long-relabel': oracle_relabel, 'C02/pipeline-wide': oracle_pipeline_wide, 'C02/exception': oracle_selfrule, 'C02/many-strata': oracle_relabel, 'C02/relabel-invariance': oracle_relabel, 'C02/self-pair-rule': oracle_selfrule,
            'C02/pipeline-coding': oracle_pipeline}
 
 
@@ -280,6 +304,7 @@ def run(ctx):
         Clause('C02/relabel-invariance', relabel_case, oracle_relabel, quick=2000, thorough=300000, quick_shards=4),
         Clause('C02/self-pair-rule', selfrule_case, oracle_selfrule, quick=1500, thorough=150000, quick_shards=3),
         Clause('C02/many-strata', manystrata_relabel_case, oracle_relabel, quick=4, thorough=48, quick_shards=4, thorough_shards=16),
+        Clause('C02/long-relabel', long_relabel_case, oracle_relabel, quick=8, thorough=200, quick_shards=4, thorough_shards=16),
         Clause('C02/pipeline-coding', frame_case, oracle_pipeline, quick=300, thorough=24000, quick_shards=3),
         Clause('C02/pipeline-wide', pipeline_wide_case, oracle_pipeline_wide, quick=1, thorough=12, quick_shards=1, thorough_shards=12),
     ]
